@@ -796,7 +796,7 @@ PROPS["C07"] = dict(
                 "API-built twin as reference (C15 relates text to API, C02 relates emulation to the documentation); known native/emulation "
                 "findings of C01/C02/C18 are kept out by construction; --test mode output is not exercised"),
     stages=[
-        dict(name="enum-memcpy-memset", mode="enum", quick=dict(), thorough=dict()),
+        dict(name="enum-memcpy-memset-first-use", mode="enum", quick=dict(), thorough=dict()),
         dict(name="rc-orcc-end-to-end", mode="rc", quick=dict(cases=5000, max_size=500, budget=55), thorough=dict(cases=150000, max_size=800, budget=1800)),
     ],
     rule=("generated case = (.orc file, orcc options, run mode, 1..3 calls per function); inner evaluation = one call compared. Non-trivial: "
@@ -809,6 +809,7 @@ PROPS["C07"] = dict(
 
 PROPS["C08"] = dict(
     variant="tsan",
+    confirm_any=True,       # a race or a deadlock shows in some interleavings only: one reproduction in six replays confirms a failure
     sources=["props/c08_threads.c"],
     level="exploration",
     technique="property-based concurrency testing (rapidcheck-generated per-thread operation lists with generated yields, all threads released by a barrier, fresh process per case) under ThreadSanitizer's happens-before race detection, with result and exactly-once counters as oracles",
@@ -826,6 +827,8 @@ PROPS["C08"] = dict(
     rule=("a case is one process: thread count, per-thread operation list with yields. Non-trivial: at least two concurrent compiles, or a "
           "once-guarded wrapper called from two or more threads, or two runs of a shared function. Oracle: no ThreadSanitizer report (the "
           "process aborts on the first), every kernel result equals the C computation, each used wrapper's initialisation block ran exactly "
-          "once and returned a non-NULL code object, unused wrappers were not initialised."),
+          "once and returned a non-NULL code object, unused wrappers were not initialised; no deadlock: worker threads that are not finished "
+          "must keep consuming CPU time (8 s without any is a deadlock). A third of the threads do not call orc_init() themselves, as "
+          "applications that rely on initialisation at first use do."),
     assumptions=["pthread build of Orc (ORC_THREADS via pthreads)"],
 )
